@@ -184,7 +184,9 @@ def plan_C02(q, seed):
     jobs += [rand_job("CONSUME", 50000 if q else 1000000, time_limit=20 if q else 300, extra=["--consume-bias", "3"], label="rand-CONSUME-memsafety-e1")]
     return {
         "jobs": jobs,
-        "accept_foreign": [["C13", "once"], ["C13", "panic"], ["C12", "once"], ["C12", "panic"]],
+        # a Weak that hands out a handle to a destroyed or moved-out value makes the library (and the
+        # program) read moved-out contents on the next use: hard Weak reports count here as well
+        "accept_foreign": [["C13", "once"], ["C13", "panic"], ["C12", "once"], ["C12", "panic"], ["C12", "weak", "hard"], ["C05", "weak", "hard"]],
         "rule": "well-formed histories with Weak handles outside and inside values (plus histories that elide unadopt, for memory-safety reports only); exactly-once oracle on destructor starts (canary), allocator oracle (double/invalid free, write-after-free in quarantine mode), moved-out-field poison (H2) turning stale table reads into deterministic panics, AddressSanitizer reports and Miri UB errors as process deaths. Non-trivial = an object was destroyed while handles to it or a group teardown or a zero-count-with-adoptions teardown were involved; distinct = distinct operation sequences",
         "assumptions": E1_ASSUME + SAN_ASSUME,
         "require": {"paths.group": 100, "paths.with_adoptions": 100, "paths.dead_handle": 100},
